@@ -395,7 +395,7 @@ func phiDNF(ph *ssa.Phi, want bool, depth int) ([][]string, bool) {
 		} else {
 			val = expandAtomDNF(Atom{e, want}, depth+1)
 		}
-		for _, conj := range pathCondsNoCtx(pred) {
+		for _, conj := range pathCondsFrom(pred, ph.Block().Idom()) {
 			for _, vc := range val {
 				out = append(out, uniqSorted(append(append(append([]string{}, conj...), edge...), vc...)))
 			}
